@@ -180,6 +180,33 @@ class Guards:
                         self.labels[key] = (e, roots, chs)
                         self.origin[key] = (n, c)
         self._cache = {}
+        # a guard on an alias (`b = x.f(); if b:`) is also killed by what changes x.f()
+        for key, (e, roots, chs) in list(self.labels.items()):
+            tnode = self.origin[key][0]
+            ex = self.expand_deep(e, tnode)
+            if ex is not e:
+                _, chs2 = chains(ex)
+                self.labels[key] = (e, roots, set(chs) | chs2)
+
+    def expand_deep(self, e, at_node):
+        """Alias expansion inside comparisons / arithmetic (new parent nodes, original leaves)."""
+        if isinstance(e, ast.Name):
+            return self.expand(e, at_node)
+        if isinstance(e, ast.Compare):
+            l = self.expand_deep(e.left, at_node)
+            cs = [self.expand_deep(c, at_node) for c in e.comparators]
+            if l is e.left and all(a is b for a, b in zip(cs, e.comparators)):
+                return e
+            return ast.Compare(left=l, ops=e.ops, comparators=cs)
+        if isinstance(e, ast.BinOp):
+            l, rr = self.expand_deep(e.left, at_node), self.expand_deep(e.right, at_node)
+            if l is e.left and rr is e.right:
+                return e
+            return ast.BinOp(left=l, op=e.op, right=rr)
+        if isinstance(e, ast.UnaryOp):
+            o = self.expand_deep(e.operand, at_node)
+            return e if o is e.operand else ast.UnaryOp(op=e.op, operand=o)
+        return e
 
     def _unguarded_set(self, key, pol):
         """ids of nodes reachable in state 'not guarded by (key,pol)'."""
